@@ -11,6 +11,8 @@ A *spec* is what replay files store.  Shape:
              one entry per POSITION of `figures`.  "name" may have directories; an entry without "hex" names a file
              another entry writes (the same file listed again, possibly spelled differently: "spell" is one of
              FIG_SPELLINGS; "name" may contain `..`); {"name":.., "symlink_to": target} makes a symbolic link.
+   "share": {"body": [j…], "headers": [j…]}   kind="multi" only, optional: section i is handed the VERY SAME RTFBody /
+             header-list object as section j = share[..][i] ≤ i (see `_shared_objects`); the per-section specs stay
 Tuples (per-row attribute vectors) are written {"__tuple__": [...]}.
 Other spellings of an attribute value that the constructors accept (array-likes) are written with a marker too:
   {"__ndarray__": x}    numpy.array(x)         x a scalar (0-d array), a flat list (1-D) or a nested list (2-D)
@@ -345,6 +347,39 @@ def spelling_labels(spec):
     return out
 
 
+def _shared_objects(items, share, make, what):
+    """one constructed object per entry of `items` — or, with `share` (optional spec key "share": {"body": [...],
+    "headers": [...]}, kind="multi" only), the VERY SAME object for several sections: share[i] = j ≤ i hands section i
+    the object built for section j (j = i: its own object).  The components of a document are held by reference, and a
+    caller may give one RTFBody (one header list with its RTFColumnHeader objects) for several sections of a list
+    document.  The spec stays in the plain per-section shape (items[i] must equal items[j]), so every reader of
+    spec["body"][i] / spec["headers"][i] is unaffected."""
+    if share is None:
+        return [make(x) for x in items]
+    if len(share) != len(items):
+        raise ValueError(f"share.{what}: one entry per section expected")
+    out = []
+    for i, x in enumerate(items):
+        j = share[i]
+        if not isinstance(j, int) or j < 0 or j > i or share[j] != j:
+            raise ValueError(f"share.{what}[{i}] = {j!r}: the index of an earlier section that owns its object expected")
+        if j != i and items[j] != x:
+            raise ValueError(f"share.{what}[{i}] = {j}: the two sections' specs differ")
+        out.append(make(x) if j == i else out[j])
+    return out
+
+
+def share_labels(spec):
+    """input-distribution labels of a multi-section spec's shared objects (for res.count)"""
+    out = []
+    for what, sh in sorted((spec.get("share") or {}).items()):
+        if sh is None:
+            continue
+        users = [sum(1 for j in sh if j == i) for i in sorted(set(sh))]
+        out.append(f"shared-{what}:{'none' if max(users, default=1) < 2 else 'x%d' % min(max(users), 4)}")
+    return out
+
+
 def build(spec, workdir: str | None = None):
     """Construct the RTFDocument described by spec (raises what the constructors raise)."""
     import rtflite as rtf
@@ -376,7 +411,8 @@ def build(spec, workdir: str | None = None):
                                          **_kw(fig))
     elif kind == "multi":
         kw["df"] = [make_frame(f) for f in spec["df"]]
-        kw["rtf_body"] = [rtf.RTFBody(**_body_kw(b, sp)) for b in spec["body"]]
+        kw["rtf_body"] = _shared_objects(spec["body"], (spec.get("share") or {}).get("body"),
+                                         lambda b: rtf.RTFBody(**_body_kw(b, sp)), "body")
     else:
         kw["df"] = make_frame(spec["df"])
         if spec.get("body") is not None:
@@ -398,8 +434,9 @@ def build(spec, workdir: str | None = None):
         def mk(x):
             return None if x is None else rtf.RTFColumnHeader(**_spelled_kw(x, sp.get("headers.text")))
         if h and isinstance(h[0], list):
-            kw["rtf_column_header"] = _container([_container([mk(x) for x in sec], sp.get("headers.inner"))
-                                                  for sec in h], sp.get("headers"))
+            inner = _shared_objects(h, (spec.get("share") or {}).get("headers") if kind == "multi" else None,
+                                    lambda sec: _container([mk(x) for x in sec], sp.get("headers.inner")), "headers")
+            kw["rtf_column_header"] = _container(inner, sp.get("headers"))
         elif sp.get("headers") == "single":
             if len(h) != 1:
                 raise ValueError("spelling headers=single needs exactly one header row")
